@@ -110,3 +110,19 @@ VARIANTS += [
       "            fes_per_model_run=fes_per_model_run,",
       "            fes_per_model_run=fes_for_training,", "fire", "D12.2"),
 ]
+
+PKG = "moptipyapps/binpacking2d/packing.py"
+VARIANTS += [
+    V("log-parser-drops-given-instance", PKG,
+      "        self.__instance: Instance | None = instance",
+      "        self.__instance: Instance | None = None", "fire", "D12.7",
+      "seed C12-log-parser-drops-given-instance"),
+    V("from-log-ignores-instance", PKG,
+      "] = _PackingParser(instance)",
+      "] = _PackingParser()", "fire", "D12.7"),
+    V("silent-parser-instance-local", PKG,
+      "        self.__instance: Instance | None = instance",
+      "        given = instance\n"
+      "        self.__instance: Instance | None = given", "silent", "",
+      "alias"),
+]
